@@ -295,6 +295,35 @@ def r4(db, rep):
                    loc=decl["span"])
 
 
+def r4b(db, rep):
+    rep.rule("R4b", "the hoisted-declaration visitor knows every place a `var` can be declared: for each enum variant of boa_ast "
+                    "named Var / VarStatement, the visitor overrides the visit method of the payload type (VarDeclaration) or of "
+                    "the enum itself (`for (var x in o)` declares through IterableLoopInitializer::Var(Variable))")
+    imp = [i for i in db.impls if i["trait"] == "boa_ast::visitor::Visitor" and
+           i["self"].endswith("ContainsHoistedDeclarationsVisitor")]
+    if not rep.anchor("R4b", "impl Visitor for ContainsHoistedDeclarationsVisitor", imp):
+        return
+    arg_types = set()
+    for it in imp[0]["items"]:
+        g = db.fns.get(it)
+        if g is not None and g.rec["argc"] >= 2:
+            arg_types.add(g.locals[2].replace("&'ast ", "").replace("&", "").strip())
+    n = 0
+    for k, a in db.adts.items():
+        if not k.startswith("boa_ast::") or a["kind"] != "enum":
+            continue
+        for v in a["variants"]:
+            if v["name"] not in ("Var", "VarStatement") or not v["fields"]:
+                continue
+            n += 1
+            P = v["fields"][0]["ty"]
+            rep.ob("R4b", f"{k.split('::')[-1]}::{v['name']}:seen-by-hoisting-visitor", P in arg_types or k in arg_types,
+                   f"a `var` declared through {k.split('::')[-1]}::{v['name']}({P.split('::')[-1]}) is invisible to "
+                   f"ContainsHoistedDeclarationsVisitor: `if (false) {{ for (var x in o) {{}} }}` is removed with its hoisted "
+                   f"declaration, and a later `typeof x` throws under the optimizer", loc=a["span"])
+    rep.floor("R4b", "places where a var can be declared", n, 3)
+
+
 ROUTINE_FAMILIES = ("boa_engine::value::", "boa_engine::builtins::number::Number", "boa_engine::bigint::JsBigInt")
 NOT_A_ROUTINE = {"new", "from", "into", "clone", "variant", "undefined", "null", "drop", "nan", "is_undefined"}
 OP_ENUMS = ["UnaryOp", "ArithmeticOp", "BitwiseOp", "RelationalOp"]
@@ -521,6 +550,7 @@ def run(db, rep, tier):
     r2(db, rep, lit)
     r3(db, rep)
     r4(db, rep)
+    r4b(db, rep)
     r5(db, rep)
     r6(db, rep)
     r7(db, rep, lit)
